@@ -77,9 +77,9 @@ def round (ir : Nat) (s : State) : State := roundWith (roundConstant ir) s
 def keccakF (s : State) : State := (List.range 24).foldl (fun s ir => round ir s) s
 
 /-! ### bytes ↔ lanes -/
-/-- little-endian load of (up to) 8 bytes -/
+/-- little-endian load of 8 bytes: byte i of the string occupies bits 8i … 8i+7 of the lane -/
 def le64 (bs : List UInt8) : UInt64 :=
-  (bs.take 8).foldr (fun b acc => (acc <<< 8) ||| b.toUInt64) 0
+  (List.range 8).foldl (fun r i => r ||| ((bs.getD i 0).toUInt64 <<< (8 * i).toUInt64)) 0
 /-- byte k (0..7) of a lane -/
 @[inline] def laneByte (l : UInt64) (k : Nat) : UInt8 := (l >>> (8 * k).toUInt64).toUInt8
 /-- byte i (0..199) of the state string -/
